@@ -10,3 +10,22 @@ def so2(entry, tier, **kw):
     kw.setdefault('unwind', 3)
     return Query('so2_' + entry, 'sp_so2.cpp', 'harness_so2_' + entry, tus=SO2_TU, stubs=('fmod.c',), renames={'fmod': 'vt_fmod'},
                  cxxflags=RNG_ENV, **kw)
+
+RV_TU = ['src/ompl/base/spaces/src/RealVectorStateSpace.cpp']
+
+
+def rv(entry, tier, dim=1, **kw):
+    kw.setdefault('timeout', 300 if tier == 'quick' else 1200)
+    kw.setdefault('unwind', dim + 3)
+    d = dict(kw.pop('defines', {})); d['DIM'] = dim
+    q = Query('rv_%s[dim=%d]' % (entry, dim), 'sp_rv.cpp', 'harness_rv_' + entry, tus=RV_TU, cxxflags=RNG_ENV, defines=d, **kw)
+    return q
+
+MISC_TU = ['src/ompl/base/spaces/src/TimeStateSpace.cpp', 'src/ompl/base/spaces/src/DiscreteStateSpace.cpp']
+
+
+def misc(entry, tier, **kw):
+    kw.setdefault('timeout', 300 if tier == 'quick' else 1200)
+    kw.setdefault('unwind', 3)
+    nm = kw.pop('name', entry)
+    return Query(nm, 'sp_misc.cpp', 'harness_' + entry, tus=MISC_TU, cxxflags=RNG_ENV, **kw)
